@@ -3,6 +3,7 @@
 package main
 
 import (
+	"fmt"
 	"strconv"
 
 	"verif/harness/cmd/c30/tops"
@@ -19,6 +20,27 @@ func gen(r *h.Rand, tier string, emit func([]string)) {
 	ncases, nops := 1500, 30
 	if tier == "thorough" {
 		ncases, nops = 12000, 45
+	}
+	// case family "large organization": 19–30 user buckets (+ the two system buckets) in one organization, a listing
+	// through the API, then DeleteOrganization — the cascade must not depend on any page size
+	nbig := 12
+	if tier == "thorough" {
+		nbig = 120
+	}
+	for c := 0; c < nbig; c++ {
+		ops := []string{"cu " + h.HexS("u1") + " 0", "co " + h.HexS("big") + " 2001"}
+		if r.Chance(0.5) {
+			ops = append(ops, "co "+h.HexS("other")+" 0", "cb 2 "+h.HexS("b00")+" u")
+		}
+		nb := 17 + r.Intn(14) // 17..30: below, at and above 20 entries together with _tasks/_monitoring
+		for i := 0; i < nb; i++ {
+			ops = append(ops, fmt.Sprintf("cb 1 %s u", h.HexS(fmt.Sprintf("b%02d", i))))
+			if r.Chance(0.1) {
+				ops = append(ops, "cm "+strconv.Itoa(1003+i)+" 2001 b "+h.Pick(r, []string{"o", "m"}))
+			}
+		}
+		ops = append(ops, "dump", "lb 1", "do 1", "dump", "fo "+h.HexS("big"), "fb 1 "+h.HexS(fmt.Sprintf("b%02d", nb-1)), "co "+h.HexS("big")+" 0", "dump")
+		emit(ops)
 	}
 	for c := 0; c < ncases; c++ {
 		var ops []string
